@@ -140,6 +140,7 @@ type Sim struct {
 	wgs      map[unsafe.Pointer]*wgState
 	chans    map[unsafe.Pointer]*chanState
 	pools    map[unsafe.Pointer]*poolState
+	onces    map[unsafe.Pointer]*onceState
 	keep     []any // keeps identities alive for the duration of the run
 	timers   []*timer
 	timerSeq int
